@@ -107,6 +107,12 @@ def global_mutable_state(repo):
                     used = any(isinstance(n, ast.Name) and n.id == t.id for i in inner for n in ast.walk(i))
                     if c and used:
                         sites.append((rel, fn.name, t.id, s.lineno, 'decorator closure'))
+        # process-wide memo decorators of the standard library (functools.lru_cache / cache): a hidden global dict
+        for fn in [n for n in ast.walk(tree) if isinstance(n, (ast.FunctionDef, ast.AsyncFunctionDef))]:
+            for d in fn.decorator_list:
+                txt = ast.unparse(d.func if isinstance(d, ast.Call) else d)
+                if txt.split('.')[-1] in ('lru_cache', 'cache') and txt.split('.')[0] in ('functools', 'lru_cache', 'cache'):
+                    sites.append((rel, fn.name, '@' + txt, fn.lineno, 'stdlib memo decorator'))
         # global rebinding
         for n in ast.walk(tree):
             if isinstance(n, ast.Global):
